@@ -232,9 +232,14 @@ def c11(ctx):
     # the exhaustive "save, then draw" family as further cases (the feature flag on / off must not change any of them)
     famp = os.path.join(ctx.work, "conc_family.ndjson")
     open(famp, "w").write("\n".join(store.gen_lines(ctx, "SemMC", "SemMC_gen_save_quick.cfg", "the 'save' family as cases for the purity / flag comparisons", workers=8)) + "\n")
+    # the exhaustive family "a variable in every syntactic position that can hold one" (ShapeFam.tla) with inputs of the declared
+    # types: one parsed script, run with other variable texts in between, against both kinds of store
+    from .checks_front import family_gen
+    _, varfam, nvf = family_gen(ctx, None, "concvars", scope="names", trees_only=True)
+    ctx.cov["variable_position_family"] = nvf
     def run_conc(out):
         """the harness process itself dies when the Go runtime detects concurrent map access: that is interference, not infrastructure"""
-        p = ctx.run_vh(["conc", ctx.seed, n, out, sp], check=False, env={"VERIF_CONC_FAMILY": famp})
+        p = ctx.run_vh(["conc", ctx.seed, n, out, sp], check=False, env={"VERIF_CONC_FAMILY": famp, "VERIF_CONC_VARFAM": varfam})
         if p.returncode != 0:
             if "concurrent map" in p.stderr:
                 return None, p.stderr
